@@ -1,4 +1,5 @@
 import AgdbStorage.Model.Wal
+import AgdbStorage.Generated.Constants
 /-
 L1: the record allocator — `StorageRecords` (agdb/src/storage/storage_records.rs) and
 `Storage<D>` (agdb/src/storage.rs), function for function, over an abstract byte store with the
@@ -8,9 +9,7 @@ C01's `FsOp` and to C06).
 -/
 namespace AgdbStorage
 
-def RECORD_SIZE : Nat := 16
 def U64_MAX : Nat := 18446744073709551615
-def CURRENT_VERSION : Nat := 1
 
 structure SRec where
   index : Nat
